@@ -45,6 +45,13 @@ def handle(job):
   eps = 2.0 ** -10
   shapes = [tuple(s) for s in geo["shapes"]]
   o = options(cfg, geo, eps)
+  # options the documented update does not depend on, varied per job: the failure threshold (healthy runs
+  # never come near it), reuse_preconditioner (only the FD root reads the previous preconditioner) and - on
+  # the eigh route, which has no ridge escalation to report - whether training metrics are kept in the state
+  o["thr"] = [0.1, 0.5][seed % 2]
+  o["reuse"] = bool((seed // 2) % 2)
+  if geo.get("eigh"):
+    o["metrics"] = bool((seed // 4) % 2)
   crank = geo.get("crank", 0)        # compression_rank: roots are stored packed, compared by their denotation
   mism, worst = [], {"update": 0.0, "stats": 0.0, "roots": 0.0}
   try:
